@@ -1,4 +1,325 @@
-//! C18/C19: thread schedules (filled in later)
+//! C18/C19: member sources delivering from real OS threads into take / merge / combine of the
+//! real crate, under a deterministic token-passing scheduler.
+//!
+//! The crate is built with `--cfg callbag_verif`: every access to an instrumented shared cell
+//! calls the hook installed here, which parks the calling worker thread until the controller
+//! gives it the turn.  One more parking point sits inside every delivery to the recording sink
+//! (between its begin and its end).  A *step* of thread t = t is released from the point it is
+//! parked at, performs that access, and runs until it parks again or finishes - exactly the
+//! step relation of coq/theories/Threads.v.
+//!
+//! input : "sys=take n=1 th=2 q0=1,2 q1=3 f0=N f1=N sched=0,1,1,0"
+//! output: the trace "t0:<dn0:D1 t0:ret t1:<dn0:D3 ..." (same tokens as the model prints)
+
+#[cfg(not(callbag_verif))]
 pub fn run_threads(_line: &str) -> String {
-    String::new()
+    "NOHOOKS".to_string()
+}
+
+#[cfg(callbag_verif)]
+pub use hooked::run_threads;
+
+#[cfg(callbag_verif)]
+mod hooked {
+    use std::cell::Cell;
+    use std::collections::HashMap;
+    use std::panic::{catch_unwind, AssertUnwindSafe};
+    use std::sync::atomic::{AtomicBool, Ordering};
+    use std::sync::{Arc, Condvar, Mutex};
+
+    use callbag::{combine, merge, take, Message, Sink, Source};
+    use never::Never;
+
+    use crate::{DynErr, Show, TestErr};
+
+    thread_local! {
+        static TID: Cell<Option<usize>> = Cell::new(None);
+    }
+
+    struct SchedState {
+        turn: Option<usize>,
+        parked: Vec<bool>,
+        finished: Vec<bool>,
+    }
+
+    pub struct Sched {
+        m: Mutex<SchedState>,
+        cv: Condvar,
+        trace: Mutex<Vec<String>>,
+    }
+
+    impl Sched {
+        fn new(n: usize) -> Arc<Self> {
+            Arc::new(Sched {
+                m: Mutex::new(SchedState {
+                    turn: None,
+                    parked: vec![false; n],
+                    finished: vec![false; n],
+                }),
+                cv: Condvar::new(),
+                trace: Mutex::new(vec![]),
+            })
+        }
+
+        /// a worker reached a scheduling point
+        fn park(&self, tid: usize) {
+            let mut st = self.m.lock().unwrap();
+            st.parked[tid] = true;
+            if st.turn == Some(tid) {
+                st.turn = None;
+            }
+            self.cv.notify_all();
+            while st.turn != Some(tid) {
+                st = self.cv.wait(st).unwrap();
+            }
+            st.parked[tid] = false;
+        }
+
+        fn finish(&self, tid: usize) {
+            let mut st = self.m.lock().unwrap();
+            st.finished[tid] = true;
+            if st.turn == Some(tid) {
+                st.turn = None;
+            }
+            self.cv.notify_all();
+        }
+
+        /// controller: wait until every worker is parked or finished and nobody has the turn
+        fn settle(&self) {
+            let mut st = self.m.lock().unwrap();
+            loop {
+                let idle = st.turn.is_none()
+                    && (0..st.parked.len()).all(|t| st.parked[t] || st.finished[t]);
+                if idle {
+                    return;
+                }
+                st = self.cv.wait(st).unwrap();
+            }
+        }
+
+        fn is_finished(&self, tid: usize) -> bool {
+            self.m.lock().unwrap().finished[tid]
+        }
+
+        /// controller: let `tid` make one step
+        fn release(&self, tid: usize) {
+            {
+                let mut st = self.m.lock().unwrap();
+                st.turn = Some(tid);
+                self.cv.notify_all();
+            }
+            self.settle();
+        }
+
+        fn rec(&self, tok: String) {
+            if let Some(t) = TID.with(|t| t.get()) {
+                self.trace.lock().unwrap().push(format!("t{}:{}", t, tok));
+            }
+        }
+    }
+
+    fn yield_here(s: &Sched) {
+        if let Some(t) = TID.with(|t| t.get()) {
+            s.park(t);
+        }
+    }
+
+    fn err_token(e: &DynErr) -> String {
+        match e.downcast_ref::<TestErr>() {
+            Some(te) => format!("E{}", te.0),
+            None => "E?".to_string(),
+        }
+    }
+
+    fn mk_sink<O: Show + 'static>(s: Arc<Sched>) -> Arc<Sink<O>> {
+        Arc::new(
+            (move |msg: Message<O, Never>| {
+                let tok = match msg {
+                    Message::Handshake(_) => "<dn0:H".to_string(),
+                    Message::Data(v) => format!("<dn0:D{}", v.show()),
+                    Message::Terminate => "<dn0:T".to_string(),
+                    Message::Error(e) => format!("<dn0:{}", err_token(&e)),
+                    Message::Pull => "<dn0:?Pull".to_string(),
+                };
+                s.rec(tok);
+                yield_here(&s);
+                s.rec("ret".to_string());
+            })
+            .into(),
+        )
+    }
+
+    type Handlers = Arc<Mutex<HashMap<usize, Arc<Sink<usize>>>>>;
+
+    /// member source i: stores the handler it is given; it greets later, from its thread
+    fn mk_member(i: usize, hs: Handlers) -> Arc<Source<usize>> {
+        Arc::new(
+            (move |msg: Message<Never, usize>| {
+                if let Message::Handshake(h) = msg {
+                    hs.lock().unwrap().insert(i, h);
+                }
+            })
+            .into(),
+        )
+    }
+
+    fn mk_talkback(i: usize, s: Arc<Sched>, stopped: Arc<Vec<AtomicBool>>) -> Arc<Source<usize>> {
+        Arc::new(
+            (move |msg: Message<Never, usize>| match msg {
+                Message::Terminate => {
+                    s.rec(format!("<up{}:T", i));
+                    stopped[i].store(true, Ordering::SeqCst);
+                }
+                Message::Error(e) => {
+                    s.rec(format!("<up{}:{}", i, err_token(&e)));
+                    stopped[i].store(true, Ordering::SeqCst);
+                }
+                Message::Pull => s.rec(format!("<up{}:P", i)),
+                _ => s.rec(format!("<up{}:?", i)),
+            })
+            .into(),
+        )
+    }
+
+    #[derive(Clone)]
+    enum Fin {
+        Term,
+        Err(u64),
+        Nothing,
+    }
+
+    pub fn run_threads(line: &str) -> String {
+        let kv = crate::parse_header(line);
+        let sys = kv.get("sys").cloned().unwrap_or_default();
+        let n = crate::geti(&kv, "n", 1) as usize;
+        let nth = crate::geti(&kv, "th", 2) as usize;
+        let qs: Vec<Vec<u64>> = (0..nth)
+            .map(|t| crate::parse_list(kv.get(&format!("q{}", t)).map(|s| s.as_str()).unwrap_or("-")))
+            .collect();
+        let fins: Vec<Fin> = (0..nth)
+            .map(|t| match kv.get(&format!("f{}", t)).map(|s| s.as_str()).unwrap_or("N") {
+                "T" => Fin::Term,
+                "N" => Fin::Nothing,
+                e => Fin::Err(e[1..].parse().unwrap()),
+            })
+            .collect();
+        let sched_list: Vec<usize> =
+            crate::parse_list(kv.get("sched").map(|s| s.as_str()).unwrap_or("-"))
+                .into_iter()
+                .map(|x| x as usize)
+                .collect();
+
+        let s = Sched::new(nth);
+        {
+            let s2 = Arc::clone(&s);
+            callbag::verif_hooks::set_hook(Some(Arc::new(move |_site: &'static str| yield_here(&s2))));
+        }
+        let hs: Handlers = Arc::new(Mutex::new(HashMap::new()));
+        let nmembers = if sys == "take" { 1 } else { nth };
+        let stopped: Arc<Vec<AtomicBool>> =
+            Arc::new((0..nmembers.max(1)).map(|_| AtomicBool::new(false)).collect());
+        let members: Vec<Arc<Source<usize>>> =
+            (0..nmembers).map(|i| mk_member(i, Arc::clone(&hs))).collect();
+
+        // build and subscribe on the controller thread (not registered: no parking, no events)
+        match sys.as_str() {
+            "take" => {
+                let out = take(n)(Arc::clone(&members[0]));
+                out(Message::Handshake(mk_sink::<usize>(Arc::clone(&s))));
+                // the single upstream greets at once, from the controller thread
+                let h = hs.lock().unwrap().get(&0).cloned().unwrap();
+                h(Message::Handshake(mk_talkback(0, Arc::clone(&s), Arc::clone(&stopped))));
+            }
+            "merge" => {
+                let out = merge(members.clone().into_boxed_slice());
+                out(Message::Handshake(mk_sink::<usize>(Arc::clone(&s))));
+            }
+            "takemerge" => {
+                let out = take(n)(Arc::new(merge(members.clone().into_boxed_slice())));
+                out(Message::Handshake(mk_sink::<usize>(Arc::clone(&s))));
+            }
+            "combine" => match nth {
+                2 => {
+                    let out = combine((Arc::clone(&members[0]), Arc::clone(&members[1])));
+                    out(Message::Handshake(mk_sink::<(usize, usize)>(Arc::clone(&s))));
+                }
+                _ => {
+                    let out = combine((
+                        Arc::clone(&members[0]),
+                        Arc::clone(&members[1]),
+                        Arc::clone(&members[2]),
+                    ));
+                    out(Message::Handshake(mk_sink::<(usize, usize, usize)>(Arc::clone(&s))));
+                }
+            },
+            other => panic!("unknown sys {}", other),
+        }
+
+        let mut joins = vec![];
+        for t in 0..nth {
+            let s = Arc::clone(&s);
+            let hs = Arc::clone(&hs);
+            let stopped = Arc::clone(&stopped);
+            let q = qs[t].clone();
+            let fin = fins[t].clone();
+            let direct = sys == "take";
+            joins.push(std::thread::spawn(move || {
+                TID.with(|c| c.set(Some(t)));
+                let member = if direct { 0 } else { t };
+                let h = hs.lock().unwrap().get(&member).cloned();
+                let r = catch_unwind(AssertUnwindSafe(|| {
+                    if let Some(h) = h {
+                        if !direct {
+                            h(Message::Handshake(mk_talkback(
+                                member,
+                                Arc::clone(&s),
+                                Arc::clone(&stopped),
+                            )));
+                        }
+                        let mut first = true;
+                        for v in q {
+                            // a member that was told to stop starts no further delivery
+                            if !(direct && first) && stopped[member].load(Ordering::SeqCst) {
+                                return;
+                            }
+                            first = false;
+                            h(Message::Data(v as usize));
+                        }
+                        if !direct && !stopped[member].load(Ordering::SeqCst) {
+                            match fin {
+                                Fin::Term => h(Message::Terminate),
+                                Fin::Err(id) => h(Message::Error(Arc::new(TestErr(id)) as DynErr)),
+                                Fin::Nothing => {}
+                            }
+                        }
+                    }
+                }));
+                if r.is_err() {
+                    s.rec("PANIC".to_string());
+                }
+                s.finish(t);
+            }));
+        }
+
+        // every worker runs to its first scheduling point
+        s.settle();
+        for t in sched_list {
+            if t < nth && !s.is_finished(t) {
+                s.release(t);
+            }
+        }
+        // then the remaining threads run to completion in index order
+        loop {
+            match (0..nth).find(|t| !s.is_finished(*t)) {
+                Some(t) => s.release(t),
+                None => break,
+            }
+        }
+        for j in joins {
+            let _ = j.join();
+        }
+        callbag::verif_hooks::set_hook(None);
+        let tr = s.trace.lock().unwrap().clone();
+        tr.join(" ")
+    }
 }
